@@ -23,6 +23,8 @@ class Context:
     """Per-run shared state: parsed repository and lazily built engines."""
 
     def __init__(self, root: str):
+        from . import canon
+        canon.SYMMETRIC_CALLS.clear()        # per-run: symmetries are re-established on the tree being analysed
         self.root = root
         self.repo = Repo(root)
         self._cache = {}
